@@ -22,7 +22,7 @@ SHAPES = ["plain", "dot-lines", "no-final-newline", "crlf", "empty-body", "multi
 
 def gen_pop(r, n):
     x = r.random()
-    num = r.choice([1, 1, 2, 3, "last", "last", "beyond", 0, "abc", -1])
+    num = r.choice([1, 1, 2, 3, "last", "last", "beyond", 0, "abc", -1, "+1", "+2", "1_0", "0_1", "1e0"])
     if x < 0.12:
         return {"verb": "STAT"}
     if x < 0.24:
